@@ -18,13 +18,13 @@ CHECKS = {
    text="Held on the inputs explored (raw bytes, 12 text/YAML mutation operators, arbitrary models, manifest and -c mutations, generic nesting, a typed expression catalogue, computed-field cycles, a catalogue of tag/kind mismatches, alias cycles at use sites, first-line flow-style expressions and comment shapes) except for two listed known findings (exponential generic nesting; NDJSON kind of a union case that is an alias of a union), each identified by panic call site or input class. Exploration: a fuzzer samples the input space.",
    note="Trusted: rusage accounting; PyYAML of the system python only to excuse yaml.v3's missing line number for first-line syntax errors.", ref="§5 C10"),
  "C06": dict(cat="exploration", tech="runtime monitoring of `yardl validate` on (old, new) pairs built from a catalogue of documented edit classes at seeded positions; verdict oracle on exit status / errors / warnings, 3 fresh processes per pair",
-   text="Held on the pairs explored (reflexive, meaning-preserving, breaking, compatible, partially compatible, unrelated) except for the listed known findings (changes inside arrays / map values, optional changes on containers and named unions, aliases of containers as items, spelling-sensitive comparison). Exploration over seeded bases and positions.",
+   text="Held on the pairs explored (reflexive, meaning-preserving, breaking, compatible, partially compatible, unrelated) except for the listed known findings (changes inside arrays / map values, optional changes on containers and named unions, aliases of containers as items, spelling-sensitive comparison). Two listed versions (one identical, one changed) are compared in both orders. Exploration over seeded bases and positions.",
    note="Trusted: the catalogue's reading of docs/cpp/evolution.md; adding an enum symbol is treated as don't-care (deliberately allowed by the implementation).", ref="§5 C06"),
  "C09": dict(cat="exploration", tech="single-fault injection with control calibration: each rule's violating construct run alone (control) and then at every position / file; oracle on exit status and on the file named by the diagnostics",
-   text="Held for 69 rule constructs x 11 positions x 4 files (the three validator gaps found earlier - named map keys, unions inside generic arguments, streams nested in steps - were repaired).",
+   text="Held for the rule constructs x 11 positions x 4 files, plus the offending file reached through a symbolic link from the package, an import or a previous version (the three validator gaps found earlier - named map keys, unions inside generic arguments, streams nested in steps - were repaired).",
    note="Trusted: the catalogue instantiates each rule with the construct the repository's own unit tests use; the valid base tree is checked to be accepted.", ref="§5 C09"),
  "C11": dict(cat="fault_enumeration", tech="fault enumeration with file-system monitor: recursive (sha256, mtime_ns, inode) snapshot before/after failing `yardl generate` runs plus file.write/file.remove hook events",
-   text="Every enumerated failing input x output configuration x initial state left the tree byte- and mtime-identical and logged no write. Faults sit in the main file, a second file, a second YAML document, an import or a previous version; manifest, evolution and -c override faults. Enumeration is over the listed fault catalogue, not all invalid packages.",
+   text="Every enumerated failing input x output configuration x initial state left the tree byte- and mtime-identical and logged no write. Faults sit in the main file, a second file, a second YAML document, a symlinked file, an import, a previous version or the import of a previous version archived as a source-tree snapshot; manifest, evolution and -c override faults. Enumeration is over the listed fault catalogue, not all invalid packages.",
    note="Trusted: snapshot covers the whole case tree (HOME excluded); verif-tagged build for the event log.", ref="§5 C11"),
  "C12": dict(cat="exploration", tech="runtime monitoring across N fresh processes (fresh map-iteration seeds): hashes of all outputs, diagnostics and exit status compared; re-run monitored with mtime/inode snapshot and write events",
    text="All N runs identical and the re-run touched nothing, for the packages explored. A two-outcome order dependence escapes N runs with probability 2^-(N-1) (N=5 quick, 25 thorough).",
@@ -33,37 +33,37 @@ CHECKS = {
    text="Every enumerated proper prefix was reported as an error without crash, sanitizer report or wrong delivered value (after two repairs of coded_stream.h found by this check). Enumeration covers the listed streams, not all streams.",
    note="Trusted: reference codec offsets; unit-buffered NDJSON output of the harness driver; sanitizers only see what red zones see (the value oracle is the deciding one).", ref="§5 C16"),
  "C18": dict(cat="exploration", tech="exhaustive enumeration of import graphs (<= 3 packages, all permutations of import lists; 4 packages sampled/all) run through the real CLI, compared with a reference resolver; order-invariance monitor on exit, parsed-namespace log and normalised model dump",
-   text="Exhaustive for <= 3 packages incl. self loops; 4 packages sampled in quick and exhaustive in thorough; special layouts (conflicts, spellings, symlink, identical relative import text in different parent directories, chains of 9..13 packages with the nesting-limit boundary pinned at 10 packages).",
+   text="Exhaustive for <= 3 packages incl. self loops; 4 packages sampled in quick and exhaustive in thorough; special layouts (conflicts, spellings, symlink, identical relative import text in different parent directories, chains of 9..13 packages with the nesting-limit boundary pinned at 10 packages, cycles closed through symbolic links, shortcut graphs whose generated C++ types.cc must compile in every listing order).",
    note="Trusted: reference resolver (cycle / conflict / depth) written from the property text; a package exactly at the limit is don't-care.", ref="§5 C18"),
  "C04": dict(cat="exploration", tech="metamorphic runtime monitoring: schema literals of C++/Python/MATLAB output and headers written by executed generated writers, under neutral edits and under candidate edits classified affecting/non-affecting by reference-encoding a value pool under both models",
-   text="Held on the bases and edits explored: all observations of a schema agree (also for a 25 KB schema), neutral edits (incl. nested documentation comments) keep it byte-identical, and every edit that changed a reference encoding changed the schema text - except one listed known finding: !enum vs !flags give the same schema although their NDJSON encodings differ.",
+   text="Held on the bases and edits explored: all observations of a schema agree (also for a 25 KB schema), neutral edits (incl. nested documentation comments) keep it byte-identical, and every edit that changed a reference encoding changed the schema text - except one listed known finding: !enum vs !flags give the same schema although their NDJSON encodings differ. Encoding-changing edits saved while `generate --watch` runs must change the embedded schemas like a one-shot generation does.",
    note="Trusted: reference codec as the judge of 'alters how some value is encoded' (8 pool value sets per protocol); MATLAB literal read from text.", ref="§5 C04"),
  "C13": dict(cat="exploration", tech="metamorphic runtime monitoring: complete generated trees hashed across 10 pure-syntax spellings, schema literals and bytes written by executed generated Python across layout variants, verdict agreement on invalid packages",
-   text="Held on the ASTs explored: pure-syntax spellings gave byte-identical trees for all targets; layout variants kept schemas and written bytes; a nesting zoo (containers of optionals / unions in containers) agrees between short and expanded spellings.",
+   text="Held on the ASTs explored: pure-syntax spellings gave byte-identical trees for all targets; layout variants kept schemas and written bytes; a nesting zoo (containers of optionals / unions in containers) and fixed-size containers of optionals in plain records agree between short and expanded spellings; HDF5 sources are part of the compared trees; several YAML documents in one file is one of the layouts.",
    note="Trusted: the harness emitter's notion of 'same model in another spelling' (docs/cpp/language.md syntax forms).", ref="§5 C13"),
  "C15": dict(cat="fault_enumeration", tech="fault enumeration on the header + neighbour protocols: executed generated readers (C++ plain/ASan, Python; binary/NDJSON) fed foreign or corrupted streams under a process monitor; refusal-before-first-value oracle on the unit-buffered output",
-   text="Every enumerated foreign / corrupted stream was refused with an error before any value was delivered, without crash or sanitizer report; C++ readers are opened through both their stream and their file-name constructors; includes an imported protocol that shares the simple name of a protocol added since the previous version.",
+   text="Every enumerated foreign / corrupted stream was refused with an error before any value was delivered, without crash or sanitizer report; C++ readers are opened through both their stream and their file-name constructors; includes an imported protocol that shares the simple name of a protocol added since the previous version, a foreign reader constructed after the stream's own reader ran in the same process, and models that differ only in a type reachable through the second instantiation of a generic.",
    note="Trusted: harness driver constructs the reader before reading; an ASan abort on a failing operator new is counted as refusal (std::bad_alloc in the plain build).", ref="§5 C15"),
  "C17": dict(cat="exploration", tech="runtime monitoring, exhaustive over block partitions (n<=5 quick / 6 thorough) x buffer capacities: executed generated C++ CopyTo (single, batch, fallback batch) and Python write modes on shape-alternating item sequences, reference decode of the output",
-   text="Item sequences were preserved for every explored (partition, capacity, input format, write mode); exhaustive over partitions of short streams, sampled for long ones; Python list / generator batches of 127..300 items.",
+   text="Item sequences were preserved for every explored (partition, capacity, input format, write mode); exhaustive over partitions of short streams, sampled for long ones; Python list / generator batches of 127..300 items; fixed-size items with varint elements, enum items and items above 4 KiB.",
    note="Trusted: reference codec controls the input block partition; equality on canonical values.", ref="§5 C17"),
  "C08": dict(cat="exploration", tech="runtime monitoring of generate + execution/compilation of its output: fresh-interpreter import and construction of every generated Python writer/serializer, g++ -std=c++17 -fsyntax-only of every generated TU, file.write event log checked for path collisions; hostile-identifier, option-matrix and init workloads",
-   text="Held for the ordinary corpus and the option matrix; Python/C++ NDJSON options with an imported package, and hostile documentation comments; hostile identifiers expose the listed known-finding classes (namespace shadowing, case-conversion collisions, helper-name collisions, version labels, vector<bool>, a computed field called yardl). Exploration over the identifier lists.",
+   text="Held for the ordinary corpus and the option matrix; Python/C++ NDJSON options with an imported package, hostile documentation comments, a zoo of generic definitions with equally shaped unions, and a smaller model generated over the output of a larger one; hostile identifiers expose the listed known-finding classes (namespace shadowing, case-conversion collisions, helper-name collisions, version labels, vector<bool>, a computed field called yardl). Exploration over the identifier lists.",
    note="Trusted: g++ 12 with harness shims (no xtensor/date/HDF5); MATLAB output is not parsed; hdf5 TUs are not compiled.", ref="§5 C08"),
  "C19": dict(cat="exploration", tech="runtime monitoring with an exact-arithmetic oracle: exhaustive 13x13x5 operand-type table through the CLI (acceptance symmetry, declared C++/Python result types), generated C++ and Python computed fields executed on reference-encoded records and compared with exact rational values",
    text="Type table exhaustive; values, a 45-expression catalogue and random well-typed expression trees (60 quick, 10 000 thorough) judged against an exact evaluator in C++ and Python. Held except one listed known finding (integer division of opposite signs).",
    note="Trusted: Python Fraction arithmetic as the mathematical value; 'in range' = operands and exact result representable in the static result type; MATLAB not executable.", ref="§5 C19"),
  "C20": dict(cat="exploration", tech="runtime monitoring of the real watcher under the Go race detector with forced interleavings: verif-tag delay points make the k-th regeneration slow (overtaken by a later one), event-log based quiescence, convergence oracle against a one-shot generate, liveness and race-report monitors",
-   text="Held on the schedules explored (seeded timed edit scripts around the 5 ms debounce + forced overtaking schedules) after serialising regenerations; schedules include model files added, deleted and moved out; exploration over schedules, not all interleavings. Liveness is restated as bounded progress.",
+   text="Held on the schedules explored (seeded timed edit scripts around the 5 ms debounce + forced overtaking schedules) after serialising regenerations; schedules include model files added, deleted and moved out, saves during the very first generation, and output removed or overwritten by something else while watching; exploration over schedules, not all interleavings. Liveness is restated as bounded progress.",
    note="Trusted: hook events only log/sleep outside locks; quiescence decided on events; wall-clock bounds only yield inconclusive.", ref="§5 C20"),
  "C07": dict(cat="exploration", tech="runtime monitoring against reference automata: generated abstract reader/writer base classes (C++ compiled with stub subclasses, Python subclassed by reflection) driven with every reference-valid call prefix extended by every action (all (state, action) pairs for shapes <= 3/4 steps) plus random walks",
    text="Exhaustive over (reference state, action) pairs for all protocol shapes up to 3 steps (4 in thorough) with bounded stream visits, in C++ and Python, plus 130 / 260-step protocols (the uint8_t state defect found here was repaired) and half-consumed Python iterators that are closed and dropped.",
    note="Trusted: reference automata written from docs/{cpp,python}/language.md with stated don't-care zones (use after close, re-reading an exhausted stream after an empty final batch, Close() while the end is pending); MATLAB not executable.", ref="§5 C07"),
  "C05": dict(cat="exploration", tech="runtime monitoring with a reference conversion interpreter: seeded version chains accepted by yardl, newest generated C++ (with compatibility serializers, plain + ASan) reading every old version and writing every old version, old versions' own generated readers fed the result; reference decode + documented-conversion oracle",
-   text="Held on the chains explored (after five repairs found by this check); generic instances of evolving records and version labels in non-sorted order are part of every chain. Restricted to edit classes with crisp data semantics; union case changes, number<->string text and out-of-range numerics are not evaluated.",
+   text="Held on the chains explored (after five repairs found by this check); generic instances of evolving records and version labels in non-sorted order are part of every chain; old-version writers are constructed over streams and through their file-name constructor; records of only fixed-width fields are included. One listed known finding: evolution of a record defined in an imported package generates C++ that does not compile. Restricted to edit classes with crisp data semantics; union case changes, number<->string text and out-of-range numerics are not evaluated.",
    note="Trusted: reference conversion written from docs/cpp/evolution.md; reference codec; each site edited once per chain.", ref="§5 C05"),
  "C14": dict(cat="exploration", tech="runtime monitoring + plan extraction: the generated Python package is imported and every serializer/converter instantiated; the serializer construction expressions of Python binary, Python NDJSON and MATLAB binary (every protocol step, reader and writer, and every record field) are normalised to plans and compared with the reference plan from the harness AST; the C++ plan is executed by C01/C03",
-   text="All compared plans agree on the corpus explored, including the bare/tagged decision of NDJSON unions over a zoo of 3- and 4-case unions (one listed known finding: an undefined numpy TypeVar in the dtype map of nested generics). Plans of generated C++ are not extracted here (they are executed by C01/C03). MATLAB is text-only (no interpreter), so a wrong static helper inside +yardl/+binary would not show.",
+   text="All compared plans agree on the corpus explored, including the bare/tagged decision of NDJSON unions over a zoo of 3- and 4-case unions, the constructor argument order of generic serializers and the JSON keys of every converter (one listed known finding: an undefined numpy TypeVar in the dtype map of nested generics). Plans of generated C++ are not extracted here (they are executed by C01/C03). MATLAB is text-only (no interpreter), so a wrong static helper inside +yardl/+binary would not show.",
    note="Trusted: reference plan from docs/reference/binary.md; expression parser for Python / MATLAB call syntax; MATLAB fixed-array dimensions are reversed (column-major) by documented normalisation.", ref="§5 C14"),
 }
 NA_REASON = "check not built yet in this session (work in progress, see DESIGN.md §5 for the planned monitor)"
